@@ -303,8 +303,30 @@ def object_api_cases():
     return out
 
 
+APPLY_ARGS = ["[1, 2]", "[]", "undefined", "null", "", "{length: 2, 0: 'a', 1: 'b'}", "{length: '2', 0: 'a', 1: 'b'}", "{length: 1.9, 0: 'a'}",
+              "{length: -1, 0: 'a'}", "{length: NaN}", "{0: 'a'}", "{}", "new Uint8Array([7, 8])", "(function () { return arguments })(3, 4)",
+              "'ab'", "5", "true", "[[1, 2]]", "[undefined, 2]", "{length: 2, get 0() { return 'g0' }, 1: 'b'}", "/a/", "function (a, b) { }",
+              "Object.create({length: 1, 0: 'inherited'})", "new Array(3)", "{length: 2, 1: 'only-second'}"]
+APPLY_FNS = ["function (a, b) { return [this === T, arguments.length, a, b] }", "(a, b) => [a, b]", "Math.max", "String.fromCharCode",
+             "function () { return [].slice.call(arguments) }", "(function (a, b) { return [this.t, a, b] }).bind({t: 'bound'}, 'pre')"]
+
+
+def apply_cases():
+    out = []
+    for f in APPLY_FNS:
+        for a in APPLY_ARGS:
+            for form in ("F.apply(T%s)",):       # (Function.prototype carries no methods in this engine: absent feature)
+                src = "var T = {t: 1}; var F = %s; var r; try { r = %s } catch (e) { r = 'throw:' + e.name } r" % (f, form % (", " + a if a else ""))
+                out.append(("P|" + src, {"src": src}))
+    return out
+
+
 def core_spaces():
     return [
+        Space("c08_apply_args", RUN, apply_cases, oracle="table", batch=100, bound="%d x %d" % (len(APPLY_FNS), len(APPLY_ARGS)),
+              rule="apply with %d kinds of argument list (arrays, nothing, array-likes with odd lengths, typed arrays, arguments objects, "
+                   "primitives, inherited and accessor elements) on %d kinds of function (declaration, arrow, built-ins, bound)" % (
+                       len(APPLY_ARGS), len(APPLY_FNS))),
         Space("c08_object_api", RUN, object_api_cases, oracle="table", batch=200, bound="%d x %d x %d" % (len(API_RECV), len(API_KEYS), len(API_DESCS)),
               rule="%d receivers (plain, array, inheriting, null-prototype, accessor pair, hidden member) x %d keys (names, canonical and "
                    "non-canonical index strings, numbers, undefined / null, an object) x {observe, delete, assign, defineProperty with %d "
